@@ -1109,6 +1109,14 @@ def judge_C08(W, ex):
 
 
 # ---------------------------------------------------------------------- C09
+def g_begin(k, g):
+    """Earliest simulated instant at which the guard wait recorded as `g` can have begun: the record carries its
+    length, the worker is gone within a second and a half of its end."""
+    p = k.procs.get(g[3])
+    t_end = p.death_time if p is not None and p.death_time is not None else k.now
+    return t_end - g[5] - 1.5
+
+
 def judge_C09(W, ex):
     k = W.k
     bad = W.bad
@@ -1154,7 +1162,21 @@ def judge_C09(W, ex):
     for chk in W.size_checks:
         if chk['state'] == 0 and k.host_exit is None:
             if chk['len'] != chk['processes']:
-                bad('C09.a', 'size-at-rest:%s' % ('below' if chk['len'] < chk['processes'] else 'above'),
+                why = ''
+                if chk['len'] > chk['processes']:
+                    # workers that shrink() dismissed before the snapshot and that are still there because they
+                    # wait out their result-consumption guard: the excess is theirs, for the reason the guard has
+                    linger = {}
+                    for pid in chk.get('pids', ()):
+                        dismissed = any(e[2] == 'kill' and e[3] == pid and e[4] == 15 and e[1].endswith('.user')
+                                        and e[0] < chk['step'] for e in k.log)
+                        g = next((e for e in k.log if e[2] == 'guard' and e[3] == pid and not e[4] and
+                                  e[5] >= 25.0 and e[0] > chk['step']), None)
+                        if dismissed and g is not None and chk['time'] >= g_begin(k, g):
+                            linger[pid] = guard_cause(W, pid)
+                    if linger and chk['len'] - len(linger) == chk['processes'] and len(set(linger.values())) == 1:
+                        why = ':dismissed-worker-waits-out-guard:' + list(linger.values())[0]
+                bad('C09.a', 'size-at-rest:%s%s' % ('below' if chk['len'] < chk['processes'] else 'above', why),
                     'at rest the pool holds %d workers, target %d (grow/shrink-adjusted %d)'
                     % (chk['len'], chk['processes'], chk['target']))
             if len(set(chk['indices'])) != len(chk['indices']):
